@@ -21,3 +21,28 @@ def hparseStep (args : List String) : String :=
   | _ => "bad-op"
 
 end Coap.Driver
+
+namespace Coap.Driver
+-- DRIVER-OPS: hseq => Coap.Driver.hseqStep
+
+/-- what the gate model predicts for one hostile datagram, in the harness' token format;
+`dispatch` = handed to the protocol layer (its reaction is the subject of C07/C10, not of C02) -/
+def hseqTok (bs : Bytes) : String :=
+  match M.gateDefault bs with
+  | .drop => "h0:t0"
+  | .rst mid => "h0:t1:R0:" ++ toString mid
+  | .bad => "h0:t0"
+  | .dispatch _ => "dispatch"
+
+/-- `hseq <scenario> <loglevel> <src> <hex;hex;…>` -/
+def hseqStep (args : List String) : String :=
+  match args with
+  | [_, _, _, ds] =>
+    let toks := (ds.splitOn ";").map fun h =>
+      match bytesOfHex h with
+      | some bs => hseqTok bs
+      | none => "bad-op"
+    "M " ++ String.intercalate " " toks ++ " canary=ok"
+  | _ => "bad-op"
+
+end Coap.Driver
